@@ -348,9 +348,9 @@ var Engine = &core.Engine{
 	},
 	Cases: func(tier string) int {
 		if tier == "thorough" {
-			return 300000
+			return 600000
 		}
-		return 6000
+		return 40000
 	},
 	Batch:         func(tier string) int { return 128 },
 	Run:           run,
